@@ -98,6 +98,10 @@ def fingerprint_url(url, unsplit=True, strip_suffix=False, platform_aware=False)
         query_item_filter=lang_query_item_filter,
         platform_aware=platform_aware,
     )
+    # NOTE: an url that cannot be parsed is returned as is by normalize_url
+    if not isinstance(splitted, SplitResult):
+        return splitted
+
     _, netloc, path, query, fragment = splitted
 
     user, password, hostname, port = (
